@@ -282,6 +282,31 @@ fn ev_head(t: &mut Tracer, acc: &[u8], reference: &[u8], chunked_after: &str) {
                 "complete": lh.complete, "same_as_ref": acc == reference, "chunked_after": chunked_after}));
 }
 
+/// Extra X04: what a flow in the send-request state says about the request it is sending.
+fn ev_view(t: &mut Tracer, s: &ReqSpec) {
+    if s.api != "flow" {
+        return;
+    }
+    let mut b = match build_sut(s) {
+        Some(b) => b,
+        None => return,
+    };
+    if let Sut::Flow(f) = &mut b.sut {
+        let map = guarded(|| f.headers_map());
+        let line = guarded(|| (f.method().as_str().to_string(), f.uri().path_and_query().map(|p| p.as_str().to_string()).unwrap_or_else(|| "/".into()), version_str(f.version())));
+        match (map, line) {
+            (Some(Ok(m)), Some((method, target, version))) => {
+                let rows: Vec<Value> = m.iter().map(|(k, v)| json!({"n": k.as_str(), "v": hex(v.as_bytes())})).collect();
+                t.ev(json!({"ev":"view","res":"ok","method":method,"target":target,"version":version,"map":rows}));
+            }
+            (Some(Err(e)), Some((method, target, version))) => {
+                t.ev(json!({"ev":"view","res":"err","method":method,"target":target,"version":version,"map":[],"err":format!("{:?}", e)}));
+            }
+            _ => t.ev(json!({"ev":"panic","during":"headers_map / method / uri / version in the send-request state"})),
+        }
+    }
+}
+
 /// One request: reference run, then buffer schedules, all logged. `schedules` are lists of buffer sizes
 /// (the last size is repeated until the head is complete).
 pub fn exercise(t: &mut Tracer, s: &ReqSpec, rng: &mut StdRng, nsched: usize, chk_orig: bool, note: &str) {
@@ -313,6 +338,7 @@ pub fn exercise(t: &mut Tracer, s: &ReqSpec, rng: &mut StdRng, nsched: usize, ch
     let rejected = reference.is_empty();
     if rejected {
         t.class("req:rejected");
+        ev_view(t, s);
         // the flow used for the reference already failed once; do it again on fresh ones, repeatedly
         for outs in [[0usize, 16, 65536], [65536, 65536, 3]] {
             let mut b2 = match build_sut(s) {
@@ -345,6 +371,7 @@ pub fn exercise(t: &mut Tracer, s: &ReqSpec, rng: &mut StdRng, nsched: usize, ch
         _ => "na",
     };
     ev_head(t, &reference, &reference, chunked_after);
+    ev_view(t, s);
     let maxline = lens.iter().copied().max().unwrap_or(2);
     for k in 0..nsched {
         let mut b2 = match build_sut(s) {
